@@ -81,6 +81,56 @@ def describe(v):
     return "%s (%s): line %s" % (v["inv"], (st.get("cfg") or {}).get("space"), ln)
 
 
+WINV = ["WireAckSound", "WireAckDue"]
+WCONST = {"D": "25000", "Slack": "2000"}
+
+
+def describe_wire(v):
+    st = v.get("stimulus") or {}
+    ln = v["trace"][v["line_in_case"]] if v.get("trace") and v["line_in_case"] < len(v["trace"]) else ""
+    return "%s (connection level, %s): line %s" % (v["inv"], json.dumps(st.get("cfg")), ln[:200])
+
+
+def mutate_wire(case, rng):
+    idx = [i for i, e in enumerate(case) if e["ev"] == "TxAck"]
+    rx = [i for i, e in enumerate(case) if e["ev"] == "Rx" and e["ae"]]
+    if idx and rx:
+        # the first ACK after some ack-eliciting arrival goes out 30 ms later than recorded
+        i0 = rng.choice(rx)
+        later = [i for i in idx if i > i0 and case[i]["side"] == case[i0]["side"]]
+        if later:
+            new = [dict(e) for e in case]
+            for j in range(later[0], len(new)):
+                if "t" in new[j]:
+                    new[j]["t"] += 30000
+            return new, "line %d: everything from the next ACK on happens 30 ms later" % later[0]
+    return None
+
+
+def wire(c, thorough, replay):
+    """connection-level scenarios (TLC enumerates the knobs), both endpoints real, traces validated against AckWire"""
+    if replay:
+        st = json.load(open(os.path.join(replay, "stimulus.json")))
+        if st.get("group") != "wire":
+            return [], []
+        cases = [st]
+    else:
+        c.model_check("AckWire_MC.tla", "AckWire_MC.cfg", label="connection timer design: ACK alarm honoured while blocked")
+        deltas = {60, 150, 200, 350, 500, 800} if not thorough else set(range(40, 1300, 30))
+        gaps = {3, 20, 30, 70} if not thorough else {1, 3, 10, 20, 24, 26, 30, 45, 70, 200}
+        losses = {0, 30, 100} if not thorough else {0, 10, 30, 60, 100, 200}
+        knobs = [s[0] for s in c.enumerate("AckWireKnobs.tla", {"Deltas": deltas, "Gaps": gaps, "Losses": losses}) if s]
+        cases = [{"group": "wire", "cfg": k, "ops": []} for k in knobs]
+    groups = c.go_run(".", "TestVerifC07W", cases, vlib.pkg_overlay(".", "root"), timeout=2400, outname="wire")
+    if replay and not groups:
+        return [], cases
+    viols = c.validate_many(c.spec("AckWire_Trace.tla"), [{"label": g, "files": f, "constants": WCONST, "invariants": WINV} for g, f in groups.items()], timeout=2400)
+    if not replay:
+        c.require_events(["Rx", "TxAck", "End"])
+        c.negative_control(c.spec("AckWire_Trace.tla"), groups["wire"], WCONST, WINV, mutate_wire, label="wire")
+    return viols, cases
+
+
 def run(replay=None):
     c = vlib.Check("C07", "AckGen")
     thorough = c.tier == "thorough"
@@ -88,9 +138,17 @@ def run(replay=None):
         "the 'ACK due now' flag is read from the tracker's state in-package (ackQueued / hasNewAck); alarm via GetAlarmTimeout",
         "the connection's duplicate filter is modelled as: IsPotentiallyDuplicate first, ReceivedPacket only for non-duplicates (as connection.go does)",
         "exhaustive over 6-7 packet numbers and sequences of 4-5 stimuli; seeded random walks beyond 64 ranges",
+        "connection level (AckWire): 1-RTT space only, as recorded by Config.Tracer on both real endpoints in virtual time; an ACK counts as sent when the packet carrying it "
+        "is logged as sent; allowed delay = 25 ms (the endpoint's own max ack delay) + 2 ms; scenarios: congestion-limited sender receiving a lone packet, "
+        "application-limited lone packets, bulk upload under random loss",
     ]
     if replay:
         cases = [json.load(open(os.path.join(replay, "stimulus.json")))]
+        if cases[0].get("group") == "wire":
+            wviols, wcases = wire(c, thorough, replay)
+            c.add_violations(wviols, wcases, describe_wire)
+            c.finish(rule="replay of one connection-level scenario")
+            return
     else:
         c.model_check("AckGen_MC.tla", "AckGen_MC.cfg", label="app")
         c.model_check("AckGen_MC.tla", "AckGen_MC_hs.cfg", label="hs")
@@ -113,10 +171,13 @@ def run(replay=None):
         jobs.append({"label": g, "files": files, "constants": constants("app" if g.startswith("app") else "hs", npn),
                      "defs": "PNsDef == 0..%d" % (npn - 1), "invariants": INV})
     viols = c.validate_many(c.spec("AckGen_Trace.tla"), jobs, timeout=2400)
+    # connection level: the ACKs that are due actually leave the endpoint (AckWire)
+    wviols, wcases = wire(c, thorough, replay)
     if not replay:
         c.require_events(["Recv", "GetAck", "Ignore", "Drop"])
         c.negative_control(c.spec("AckGen_Trace.tla"), groups["app"], constants("app", 7), INV, mutate, defs="PNsDef == 0..6", label="app")
     c.add_violations(viols, cases, describe)
+    c.add_violations(wviols, wcases, describe_wire)
     c.finish(rule="TLC enumerates every sequence of L stimuli (arrivals in any order incl. duplicates, ticks around the max ack delay, "
                   "GetAckFrame with/without onlyIfQueued, IgnorePacketsBelow, DropPackets) per space; executed on ReceivedPacketHandler; "
                   "every ACK / duplicate answer / queued flag / alarm is validated against AckGen")
